@@ -99,7 +99,18 @@ func (x *Exec) doCall(fr *Frame, st *State, c *ssa.CallCommon, args []Value, pos
 				}, pos)
 				x.obls[len(x.obls)-1].Watch = watches
 			}
+			var cprops []string
+			for _, a := range s.Asserts {
+				for _, p := range a.Props {
+					if !hasProp(cprops, p) {
+						cprops = append(cprops, p)
+					}
+				}
+			}
 			x.obligeCover(root, st, "site:"+s.Label, pos)
+			if len(x.obls) > 0 && x.obls[len(x.obls)-1].Cover && len(cprops) > 0 {
+				x.obls[len(x.obls)-1].Props = cprops
+			}
 		}
 	}
 	// ---- effect of the call ----
@@ -407,17 +418,34 @@ func mfName(method string) string {
 	return method
 }
 
+// embeddedFieldIDs: ids of (fld _ id) constructors that address an embedded (anonymous) struct
+// field. A method promoted from an embedded field acts on the enclosing object: its model
+// fields are those of the outermost object, whichever static path the call took.
+var embeddedFieldIDs = map[string]bool{}
+
 func objRef(v Value) (Term, bool) {
 	switch v := v.(type) {
 	case PtrV:
 		if v.Cell != nil {
 			return "", false
 		}
-		return v.Ref, true
+		return canonObj(v.Ref), true
 	case IfaceV:
-		return v.Data, true
+		return canonObj(v.Data), true
 	}
 	return "", false
+}
+
+func canonObj(ref Term) Term {
+	for strings.HasPrefix(ref, "(fld ") && strings.HasSuffix(ref, ")") {
+		body := ref[5 : len(ref)-1]
+		i := strings.LastIndex(body, " ")
+		if i < 0 || !embeddedFieldIDs[body[i+1:]] {
+			break
+		}
+		ref = body[:i]
+	}
+	return ref
 }
 
 // mfIdx is an extra index of a model field (e.g. the condition type of GetCondition).
@@ -427,8 +455,35 @@ type mfIdx struct {
 }
 
 func mfIndexOf(v Value) mfIdx {
+	if r, ok := objRef(v); ok {
+		return mfIdx{T: r, Sort: SRef}
+	}
 	sh := leafShapeAny(valueType(v))
 	return mfIdx{T: flatten(v)[0], Sort: sh[0].sort}
+}
+
+// pureArgs flattens call arguments for an uninterpreted pure function: objects (pointers and
+// interface values) contribute their reference only.
+func pureArgs(args []Value) (terms []Term, sorts []string) {
+	for _, a := range args {
+		if r, ok := objRef(a); ok {
+			terms = append(terms, r)
+			sorts = append(sorts, SRef)
+			continue
+		}
+		if pv, ok := a.(PtrV); ok {
+			terms = append(terms, pv.Ref)
+			sorts = append(sorts, SRef)
+			continue
+		}
+		ls := flatten(a)
+		sh := leafShapeAny(valueType(a))
+		for i := range ls {
+			terms = append(terms, ls[i])
+			sorts = append(sorts, sh[i].sort)
+		}
+	}
+	return
 }
 
 func (x *Exec) mfRead(st *State, field string, ref Term, idx []mfIdx, t types.Type) Value {
@@ -505,21 +560,14 @@ func (x *Exec) applySpec(fr *Frame, st *State, spec *FuncSpec, c *ssa.CallCommon
 	switch spec.Kind {
 	case "pure":
 		if !noResult {
-			var argTerms []Term
-			var argSorts []string
-			for _, a := range args {
-				if pv, ok := a.(PtrV); ok {
-					argTerms = append(argTerms, x.ptrTerm(pv))
-					argSorts = append(argSorts, SRef)
-					continue
-				}
-				ls := flatten(a)
-				sh := leafShapeAny(valueType(a))
-				for i := range ls {
-					argTerms = append(argTerms, ls[i])
-					argSorts = append(argSorts, sh[i].sort)
+			pargs := args
+			if c.Signature().Variadic() && len(pargs) > 0 {
+				// an empty variadic tail is not an argument
+				if sv, ok := pargs[len(pargs)-1].(SliceV); ok && sv.Arr == NilRef {
+					pargs = pargs[:len(pargs)-1]
 				}
 			}
+			argTerms, argSorts := pureArgs(pargs)
 			sh := leafShapeAny(rt)
 			ts := make([]Term, len(sh))
 			for i, l := range sh {
@@ -583,6 +631,21 @@ func (x *Exec) applySpec(fr *Frame, st *State, spec *FuncSpec, c *ssa.CallCommon
 					}
 				}
 				x.havocObject(st, ref, elem)
+			}
+		}
+	}
+	for _, f := range spec.HavocMF {
+		if ref, ok := objRef(args[0]); ok {
+			for _, name := range sortedKeys(st.heap) {
+				if strings.HasPrefix(name, "MF."+f+":") || strings.HasPrefix(name, "MF."+f+"#") || strings.HasPrefix(name, "MF."+f+".") {
+					sort := x.arrays[name]
+					inner := strings.TrimSuffix(strings.TrimPrefix(sort, "(Array Ref "), ")")
+					fv := m.fresh("mfh", inner)
+					if inner == SRef {
+						m.assume(Implies(st.pc, "(>= (rootid "+fv+") "+st.allocLow+")"))
+					}
+					st.heap[name] = m.def(name, sort, Store(st.heap[name], ref, fv))
+				}
 			}
 		}
 	}
